@@ -327,11 +327,21 @@ func runSetIfAbsentRace(sc sweepScenario) sweepResult {
 		Clock:            clk,
 		ExpiryCalculator: calc,
 		MaximumSize:      sc.Max + 4,
+		OnAtomicDeletion: func(e DeletionEvent[int, int]) {
+			if e.Key == 1 && e.Value == 11 {
+				mu.Lock()
+				res.AtomicCause = e.Cause.String()
+				mu.Unlock()
+			}
+		},
 		OnDeletion: func(e DeletionEvent[int, int]) {
 			if e.Key != 1 {
 				return
 			}
 			mu.Lock()
+			if e.Value == 11 {
+				res.AsyncCause = e.Cause.String()
+			}
 			if e.Cause == CauseExpiration {
 				res.Expired++
 			} else {
@@ -363,6 +373,26 @@ func runSetIfAbsentRace(sc sweepScenario) sweepResult {
 	}
 	clk.now.Add(1000 + sc.Jump) // the deadline passes
 	var once sync.Once
+	var wgid atomic.Uint64
+	gateOps := sc.Op == "sia.setgate" || sc.Op == "sia.invgate" || sc.Op == "sia.cmpgate"
+	if gateOps {
+		// the writer is parked right after its table computation (hooks set.afterCompute / inv.afterCompute / cmp.afterCompute), the
+		// reader stores the extended deadline into the replaced node, the writer goes on to publish its event
+		verifhookInstall(func(id string, v uint64) {
+			if (id == "set.afterCompute" || id == "inv.afterCompute" || id == "cmp.afterCompute") && verifkit.GoID() == wgid.Load() {
+				once.Do(func() {
+					calc.resume <- struct{}{}
+					select {
+					case <-rdone:
+					case <-time.After(3 * time.Second):
+						res.Hang = 1
+					}
+				})
+			}
+		})
+		defer verifhookInstall(nil)
+	}
+	if !gateOps {
 	calc.onCreate = func(e Entry[int, int]) {
 		if e.Value != 99 {
 			return
@@ -376,12 +406,19 @@ func runSetIfAbsentRace(sc sweepScenario) sweepResult {
 			}
 		})
 	}
+	}
 	wdone := make(chan struct{})
 	go func() {
 		defer close(wdone)
+		wgid.Store(verifkit.GoID())
 		var ok bool
 		switch sc.Op {
-		case "sia.set":
+		case "sia.invgate":
+			c.Invalidate(1)
+		case "sia.cmpgate":
+			c.Compute(1, func(old int, found bool) (int, ComputeOp) { return 99, WriteOp })
+			ok = true
+		case "sia.set", "sia.setgate":
 			_, ok = c.Set(1, 99)
 		default:
 			_, ok = c.SetIfAbsent(1, 99)
@@ -603,6 +640,8 @@ type sweepResult struct {
 	LdRuns      int `json:"ldruns"`      // ld.x: loader invocations
 	MassN       int `json:"massn"`       // mass.x: entries that came due in one sweep
 	MassExpired int `json:"massexpired"` // mass.x: distinct keys for which exactly one Expiration event was delivered
+	AtomicCause string `json:"atomiccause"` // sia.x: cause with which the replaced value (key 1, value 11) reached OnAtomicDeletion
+	AsyncCause  string `json:"asynccause"`  // sia.x: ... and OnDeletion
 	Cold       int `json:"cold"`       // sia.race: entries Coldest yields after the race (Live = entries All yields)
 	Inserted   int `json:"inserted"`   // sia.race: 1 = SetIfAbsent reported that it stored its value
 }
